@@ -18,3 +18,10 @@ for r in range(-1, 5):
     assert len(rm.descendants((), r)) == rm.num_cells(r)
 assert rm.ref_compact(rm.descendants((), 3)) == {()}
 print('selftest ok: reference codec round-trips', n, 'paths')
+# the schedule explorers are validated on a toy module whose behaviour under every schedule is known (tests/test_sched_toy.py)
+import subprocess
+r = subprocess.run([sys.executable, os.path.join(HERE, 'tests', 'test_sched_toy.py')], capture_output=True, text=True, timeout=300)
+if r.returncode != 0:
+    print(r.stdout + r.stderr)
+    sys.exit(1)
+print('selftest ok: schedule explorers (one and two preemptions) behave as predicted on the toy module')
